@@ -281,7 +281,7 @@ Proof.
   - intros [-> H]. apply (mapM_unit_ok (check_item m)) in H. destruct H as [us ->]. reflexivity.
 Qed.
 
-(* the first item the kind of sequence does not admit decides the error *)
+(* the first item the kind of sequence refuses decides the error *)
 Lemma seq_new_rejects : forall m pre x post e,
   Forall (ok_in m) pre -> check_item m x = Err e -> seq_new m (pre ++ x :: post) = Err e.
 Proof.
@@ -757,7 +757,7 @@ Qed.
 (* the property sentence in one statement: an admissible item is built
    unchanged, its accessors report what it was built with, and its dataset
    parses - by its own class, through the two-phase functions, and through
-   from_sequence of every kind of sequence that admits it - to the same item
+   from_sequence of every kind of sequence that takes it - to the same item
    (same class, name, relationship, value and nested content) *)
 Theorem end_to_end : forall t, wf t -> valid t ->
   construct t = Ok t /\
